@@ -140,7 +140,7 @@ theorem rxMore_step_nonrx (e : Ep) (ev : Ev) (h : ∀ c, ev ≠ .rx c) : (step e
     · split
       · rfl
       · simp
-  | pump n => simp only []; split <;> simp
+  | pump n => simp only []; split <;> (try split) <;> simp
   | rxEof => simp only []; split <;> simp
   | keepaliveTimer =>
     simp only []
